@@ -78,6 +78,29 @@ pub(crate) fn spec_capacity(available: i32, buffered: usize, max_buffer: usize) 
 #[cfg(kani)]
 mod proofs {
     use super::*;
+
+    // C02/C03: a new stream starts with the SEND window the peer advertised (nothing assigned yet) and the RECEIVE
+    // window this endpoint advertised (all of it available to the peer).  Both arguments are any value a SETTINGS
+    // frame can carry (<= 2^31-1: Settings::load rejects more, the builder asserts it).
+    // @harness id=stream_new_windows props=C02,C03,C16 kind=complete tier=quick fn=Stream::new
+    #[kani::proof]
+    fn stream_new_windows() {
+        use super::super::flow_control::verif_kani::raw;
+        let (si, ri): (u32, u32) = (kani::any(), kani::any());
+        kani::assume(si <= MAX_WINDOW_SIZE && ri <= MAX_WINDOW_SIZE);
+        let id = crate::verif_kani::any_stream_id();
+        let s = Stream::new(id, si, ri);
+        assert!(raw(&s.send_flow) == (si as i32, 0), "stream.new.send_window_is_the_peers_initial_window_nothing_assigned");
+        assert!(raw(&s.recv_flow) == (ri as i32, ri as i32), "stream.new.recv_window_is_our_initial_window_all_available");
+        assert!(s.id == id && s.ref_count == 0 && !s.is_counted && s.requested_send_capacity == 0 && s.buffered_send_data == 0
+            && s.in_flight_recv_data == 0 && s.is_recv && s.reset_at.is_none(), "stream.new.bookkeeping_starts_idle");
+        assert!(!s.is_pending_send && !s.is_pending_send_capacity && !s.is_pending_open && !s.is_pending_push
+            && !s.is_pending_accept && !s.is_pending_window_update, "stream.new.in_no_queue");
+        assert!(s.state.is_idle(), "stream.new.state_is_idle");
+        kani::cover!(si == 65_535 && ri == 1 << 20, "cover.different_windows");
+        std::mem::forget(s);
+    }
+
     use super::super::flow_control::verif_kani::{mk_flow, raw};
     use super::super::state::verif_kani::{abs, any_state, cause_sig, rfc_closed, Abs};
     use crate::verif_kani::{any_initiator, any_stream_id, ini};
